@@ -526,6 +526,29 @@ def engine_D(name, kinds, nitems, maxp, tier, seed, wd_name=None, model=True, mo
                               "universe": keys + ["z", "y", "x"], "steps": r["steps"], "probes": [], "wit": [],
                               "sweep": {"ops": ops[j:j + 6], "classes": ["cmp", "hash", "eq", "cb", "clone"], "maxk": 60,
                                         "conts": conts}})
+        # larger states (several heap levels: sift-ups that cross two and more levels) built by seeded pushes
+        rng = random.Random(seed * 31 + len(kind))
+        pm = ["pop"] if kind == "pq" else ["pop_min", "pop_max"]
+        for size in ((8, 11, 16, 24) if tier == "quick" else (8, 9, 11, 15, 16, 17, 24, 31, 32, 40)):
+            for rep in range(2 if tier == "quick" else 4):
+                bk = ["k%d" % i for i in range(size)]
+                base = [{"op": "push", "k": k, "r": rng.randint(-3, 9)} for k in bk]
+                picks = rng.sample(bk, 4) + [bk[-1], bk[0]]
+                bops = [{"op": "push", "k": "z", "r": r} for r in (-5, 3, 12)]
+                for k in picks:
+                    bops += [{"op": "change_priority", "k": k, "r": -5}, {"op": "change_priority", "k": k, "r": 12},
+                             {"op": "push", "k": k, "r": rng.randint(-3, 9)}, {"op": "remove", "k": k},
+                             {"op": "change_priority_by", "k": k, "r": 12}, {"op": "push_increase", "k": k, "r": 12},
+                             {"op": "push_decrease", "k": k, "r": -5}]
+                bops += [{"op": p} for p in pm]
+                bconts = [[{"op": pm[0]}] * 3 + [{"op": pm[-1]}] * 3,
+                          [{"op": "remove", "k": k} for k in picks] + [{"op": "push", "k": "y", "r": 0}, {"op": pm[0]}],
+                          [{"op": "push", "k": "y", "r": 12}, {"op": "push", "k": "x", "r": -5}, {"op": pm[-1]}, {"op": pm[0]}],
+                          [{"op": "change_priority", "k": picks[0], "r": 0}, {"op": "retain", "keep": bk[1:]}, {"op": pm[0]}]]
+                for j in range(0, len(bops), 8):
+                    cases.append({"case": [kind, "sweep-big", size, rep, j], "kind": kind, "hasher": "std",
+                                  "universe": bk + ["z", "y", "x"], "steps": base, "probes": [], "wit": [],
+                                  "sweep": {"ops": bops[j:j + 8], "classes": ["cmp", "cb", "hash"], "maxk": 80, "conts": bconts}})
         f.samples.append({"engine": "D", "kind": kind, "example_state_history": mq["replay"][-1]["steps"],
                           "swept_operation": ops[0], "classes": ["cmp", "hash", "eq", "cb", "clone"],
                           "continuations": len(conts)})
